@@ -282,6 +282,11 @@ def run(ctx):
     ctx.check(len(rets) == 1 and U(rets[0].value) in (f"self * {o}", f"self.__mul__({o})"), "C06.c", "HistogramBase.__rmul__",
               "c * h evaluates h * c", "__rmul__ is not `return self * other`", rm.where)
 
+    # the operand is left untouched: ownership analysis of the copying operators and of copy() itself (shared with C12)
+    from rules import c12
+    for spec in [x for x in c12.OPS if x[2] in ("__mul__", "__rmul__", "__truediv__", "normalize", "copy") and x[1] != "HistogramCollection"]:
+        c12.check_op(ctx, m, "C06.c", "C06.c", *spec)
+
     ctx.rule("C06.d", "histogram operands refused first; no reflected division / power operators; contents via setters", 4)
     for name in ("__imul__", "__itruediv__"):
         fi = HB.methods[name]
